@@ -1143,6 +1143,195 @@ variant("mra-BREAK-dedup-by-rule-type", _mra("""
             raise AssertionError("\\n".join(ms[0] for ms in grouped.values()))
 """), expect="C07.R2")
 
+# ---------------------------------------------------------------------------------------------- seventh batch (round 8): context
+# managers, operator.methodcaller, positions / slices of one sorted sequence, re-configuration of an evaluated rule object
+def _mra_full(head: str, body: str) -> dict:
+    return {MUL: MUL_HEAD + "import contextlib\n\n\n" + head + "\nclass MultipleRuleApplier(RuleApplier):\n    def __init__(self, rule_appliers: list[RuleApplier]) -> None:\n        self._rule_appliers = rule_appliers\n" + body}
+
+
+_LOG = """
+class _ViolationLog:
+    def __init__(self) -> None:
+        self.messages: list[str] = []
+
+    def __enter__(self):
+        return self
+
+    def __exit__(self, exc_type, exc, traceback) -> bool:
+        %s
+"""
+_WITH_LOG = """
+    def assert_applies(self, evaluable: EvaluableArchitecture) -> None:
+        violations = _ViolationLog()
+        for rule_applier in self._rule_appliers:
+            with violations:
+                rule_applier.assert_applies(evaluable)
+        if not violations.messages:
+            return
+        raise AssertionError("\\n".join(violations.messages))
+"""
+
+variant("mra-with-log-issubclass", _mra_full(_LOG % """if exc_type is None or not issubclass(exc_type, AssertionError):
+            return False
+        self.messages.append(exc.args[0])
+        return True""", _WITH_LOG))
+
+variant("mra-with-log-per-call-as-target", _mra_full(_LOG % """if isinstance(exc, AssertionError):
+            self.messages.append(str(exc))
+        return isinstance(exc, AssertionError)""", """
+    def assert_applies(self, evaluable: EvaluableArchitecture) -> None:
+        with contextlib.nullcontext(_ViolationLog()) as log:
+            for rule_applier in self._rule_appliers:
+                with log as entered:
+                    rule_applier.assert_applies(evaluable)
+        if entered.messages:
+            raise AssertionError("\\n".join(entered.messages))
+"""))
+
+variant("mra-BREAK-with-log-catches-exception", _mra_full(_LOG % """if exc_type is None or not issubclass(exc_type, Exception):
+            return False
+        self.messages.append(exc.args[0])
+        return True""", _WITH_LOG), expect="C07.R2")
+
+variant("mra-BREAK-with-log-suppresses-everything", _mra_full(_LOG % """if exc_type is None:
+            return False
+        if issubclass(exc_type, AssertionError):
+            self.messages.append(exc.args[0])
+        return True""", _WITH_LOG), expect="C07.R2")
+
+variant("mra-BREAK-with-log-does-not-suppress", _mra_full(_LOG % """if exc_type is not None and issubclass(exc_type, AssertionError):
+            self.messages.append(exc.args[0])
+        return False""", _WITH_LOG), expect="C07.R2")
+
+variant("mra-BREAK-with-log-around-the-loop", _mra_full(_LOG % """if exc_type is None or not issubclass(exc_type, AssertionError):
+            return False
+        self.messages.append(exc.args[0])
+        return True""", """
+    def assert_applies(self, evaluable: EvaluableArchitecture) -> None:
+        violations = _ViolationLog()
+        with violations:
+            for rule_applier in self._rule_appliers:
+                rule_applier.assert_applies(evaluable)
+        if violations.messages:
+            raise AssertionError("\\n".join(violations.messages))
+"""), expect="C07.R2")
+
+variant("mra-BREAK-with-log-at-class-level", _mra_full(_LOG % """if exc_type is None or not issubclass(exc_type, AssertionError):
+            return False
+        self.messages.append(exc.args[0])
+        return True""", """
+    _violations = _ViolationLog()
+
+    def assert_applies(self, evaluable: EvaluableArchitecture) -> None:
+        violations = self._violations
+        for rule_applier in self._rule_appliers:
+            with violations:
+                rule_applier.assert_applies(evaluable)
+        if violations.messages:
+            raise AssertionError("\\n".join(violations.messages))
+"""), expect="C07.R2")
+
+_COLLECTING = """
+@contextlib.contextmanager
+def _collecting(messages: list[str]):
+    try:
+        yield messages
+    except %s as e:
+        messages.append(e.args[0])
+"""
+_WITH_COLLECTING = """
+    def assert_applies(self, evaluable: EvaluableArchitecture) -> None:
+        messages: list[str] = []
+        for rule_applier in self._rule_appliers:
+            with _collecting(messages):
+                rule_applier.assert_applies(evaluable)
+        if messages:
+            raise AssertionError("\\n".join(messages))
+"""
+variant("mra-contextmanager-generator", _mra_full(_COLLECTING % "AssertionError", _WITH_COLLECTING))
+variant("mra-BREAK-contextmanager-generator-catches-more", _mra_full(_COLLECTING % "(AssertionError, KeyError)", _WITH_COLLECTING), expect="C07.R2")
+variant("mra-BREAK-suppress-loses-messages", _mra_full("", """
+    def assert_applies(self, evaluable: EvaluableArchitecture) -> None:
+        failed = []
+        for rule_applier in self._rule_appliers:
+            with contextlib.suppress(AssertionError):
+                rule_applier.assert_applies(evaluable)
+                continue
+            failed.append(str(rule_applier))
+        if failed:
+            raise AssertionError("\\n".join(failed))
+"""), expect="C07.R2")
+
+_PLANNED = CONV_HEAD + """from operator import methodcaller
+from typing import Callable, NamedTuple
+
+_SHOULD = methodcaller("should")
+_SHOULD_ONLY = methodcaller("should_only")
+_SHOULD_NOT = methodcaller(%(should_not)r)
+
+
+class _PlannedRule(NamedTuple):
+    importer: str
+    behavior: Callable
+    importees: Iterable[str]
+
+    def build(self) -> RuleApplier:
+        rule_subject = Rule().modules_that().are_named(self.importer)
+        verb = self.behavior(rule_subject)
+        return verb.import_modules_that().are_named(list(self.importees))
+
+
+class DependencyToRuleConverter:
+    def __init__(self, should_only_rule: bool) -> None:
+        self._should_only_rule = should_only_rule
+
+    def convert(self, dependencies: ParsedDependencies) -> list[RuleApplier]:
+        should_rules = self._convert_should_rules(dependencies)
+        should_not_rules = self._convert_should_not_rules(dependencies)
+        return should_rules + should_not_rules
+
+    def _convert_should_rules(self, dependencies: ParsedDependencies) -> list[RuleApplier]:
+        behavior = %(behavior)s
+        planned = [_PlannedRule(importer, behavior, importees) for importer, importees in dependencies.dependencies.items()]
+        return [rule.build() for rule in planned]
+
+    @classmethod
+    def _convert_should_not_rules(cls, parsed_dependencies: ParsedDependencies) -> list[RuleApplier]:
+        return [rule.build() for rule in cls._plan_should_not_rules(parsed_dependencies)]
+
+    @classmethod
+    def _plan_should_not_rules(cls, parsed_dependencies: ParsedDependencies) -> list[_PlannedRule]:
+        modules_in_order = %(order)s
+        drawn = parsed_dependencies.dependencies
+        no_arrows: frozenset[str] = frozenset()
+        planned = []
+        for position, possible_importer in enumerate(%(enumerated)s):
+            imported = drawn.get(possible_importer, no_arrows)
+            candidates = %(candidates)s
+            not_imported = [module for module in candidates if module not in imported]
+            if not not_imported:
+                continue
+            planned.append(_PlannedRule(possible_importer, _SHOULD_NOT, not_imported))
+        return planned
+"""
+_PLAN = {"should_not": "should_not", "behavior": "_SHOULD_ONLY if self._should_only_rule else _SHOULD", "order": "sorted(parsed_dependencies.all_modules)", "enumerated": "modules_in_order", "candidates": "modules_in_order[:position] + modules_in_order[position + 1 :]"}
+variant("conv-planned-methodcaller-slices", {DCV: _PLANNED % _PLAN})
+variant("conv-planned-slices-chain-from-zero", {DCV: _PLANNED % {**_PLAN, "candidates": "list(itertools.chain(modules_in_order[0:position], modules_in_order[1 + position:]))"}})
+variant("conv-planned-enumerate-copy-inequality", {DCV: _PLANNED % {**_PLAN, "enumerated": "list(modules_in_order)", "candidates": "[m for i, m in enumerate(modules_in_order) if i != position]"}})
+variant("conv-planned-del-position", {DCV: (_PLANNED % {**_PLAN, "candidates": "list(modules_in_order)"}).replace("            not_imported = [", "            del candidates[position]\n            not_imported = [")})
+variant("conv-planned-pop-position-filterfalse", {DCV: (_PLANNED % {**_PLAN, "candidates": "modules_in_order.copy()"}).replace("            not_imported = [module for module in candidates if module not in imported]", "            candidates.pop(position)\n            not_imported = list(itertools.filterfalse(imported.__contains__, candidates))")})
+variant("conv-BREAK-planned-pop-next-position", {DCV: (_PLANNED % {**_PLAN, "candidates": "modules_in_order.copy()"}).replace("            not_imported = [", "            candidates.pop(position + 1) if position + 1 < len(candidates) else None\n            not_imported = [")}, expect="C07.R1")
+variant("conv-BREAK-planned-self-kept", {DCV: _PLANNED % {**_PLAN, "candidates": "modules_in_order[:position] + modules_in_order[position:]"}}, expect="C07.R1")
+variant("conv-BREAK-planned-predecessors-only", {DCV: _PLANNED % {**_PLAN, "candidates": "modules_in_order[:position]"}}, expect="C07.R1")
+variant("conv-BREAK-planned-two-skipped", {DCV: _PLANNED % {**_PLAN, "candidates": "modules_in_order[:position] + modules_in_order[position + 2 :]"}}, expect="C07.R1")
+variant("conv-BREAK-planned-mode-exchanged", {DCV: _PLANNED % {**_PLAN, "behavior": "_SHOULD if self._should_only_rule else _SHOULD_ONLY"}}, expect="C07.R1")
+variant("conv-BREAK-planned-should-not-is-should", {DCV: _PLANNED % {**_PLAN, "should_not": "should"}}, expect="C07.R1")
+variant("conv-planned-positions-of-another-order", {DCV: _PLANNED % {**_PLAN, "enumerated": "list(parsed_dependencies.all_modules)"}}, expect="undecided")
+
+variant("drule-BREAK-first-base-module-wins", {DRU: DRU_HEAD + PREFIXER_PLAIN + DRULE_CLASS.replace("        self._name_relative_to_root = name_relative_to_root\n", "        if self._name_relative_to_root is None:\n            self._name_relative_to_root = name_relative_to_root\n")}, expect="C07.R3")
+variant("drule-BREAK-first-file-wins", {DRU: DRU_HEAD + PREFIXER_PLAIN + DRULE_CLASS.replace("        self._file_path = file_path\n", "        self._file_path = self._file_path or file_path\n")}, expect="C07.R3")
+
+
 def main() -> int:
     here = Path(__file__).resolve().parents[1]
     sys.path.insert(0, str(here))
